@@ -56,6 +56,10 @@ func (db *DB) Lookup(key []byte) ([36]byte, error) {
 
 // LookupBucket returns a handle to the bucket that might contain the given key.
 func (db *DB) LookupBucket(key []byte) (*Bucket, error) {
+	if db.Header.NumBuckets == 0 {
+		// an index without buckets holds no keys (and BucketHash would divide by zero)
+		return nil, ErrNotFound
+	}
 	return db.GetBucket(db.Header.BucketHash(key))
 }
 
@@ -76,6 +80,9 @@ func (db *DB) GetBucket(i uint) (*Bucket, error) {
 	readErr := bucket.BucketHeader.readFrom(db.Stream, i)
 	if readErr != nil {
 		return nil, readErr
+	}
+	if int(bucket.HashLen)+int(bucket.OffsetWidth) > int(bucket.Stride) {
+		return nil, fmt.Errorf("invalid bucket %d: hash length %d does not fit the entry stride %d", i, bucket.HashLen, bucket.Stride)
 	}
 	bucket.Entries = io.NewSectionReader(db.Stream, int64(bucket.FileOffset), int64(bucket.NumEntries)*int64(bucket.Stride))
 	if db.prefetch {
